@@ -5405,6 +5405,11 @@ impl GraphEngine {
                 });
             } else if let Some(parent_list) = parents.get(&current) {
                 for (parent, edge_id) in parent_list {
+                    // A zero-weight cycle makes a node its own (transitive) parent at equal
+                    // cost; following it would never reach `from`. Only simple paths are listed.
+                    if nodes.contains(parent) {
+                        continue;
+                    }
                     let mut new_nodes = nodes.clone();
                     new_nodes.push(*parent);
                     let mut new_edges = edges.clone();
